@@ -18,7 +18,7 @@ Print Assumptions C36_full.
 Example C36_full_applies :
   let c := mkCfg true true None false false in
   c_sharing c = false /\ c_prov c = true /\
-  List.length (fst (session c 9 [wf2; Leaf 4 "main" ["f"%string] true true true])) = 27.
+  List.length (fst (session c 9 [wf2; Leaf 4 "main" ["f"%string] true true true false; Leaf 5 "main" [] false false false true])) = 34.
 Proof. vm_compute. auto. Qed.
 
 (* one job tree started in an arbitrary interpreter state (any heap of Audit objects, any uuid history, any cwd) *)
